@@ -58,6 +58,9 @@ CASE_TIMEOUT = 120
 # workload
 # ---------------------------------------------------------------------------------------------
 
+BIG_N = [1000, 1025, 2500, 4097, 16385, 20000, 40001, 65537]
+
+
 def gen_cases(seed, tier):
     rng = np.random.default_rng([seed, 8])
     n = 720 if tier == "quick" else 30000
@@ -77,6 +80,12 @@ def gen_cases(seed, tier):
             batch = [int(rng.choice([1, 2, 3, int(rng.integers(4, 17)), int(rng.integers(17, 65))]))]
         cases.append({"spec": spec, "raw_domains": raw_domains, "batch": batch, "dtype": "float64" if rng.random() < 0.4 else "float32",
                       "seed": int(rng.integers(0, 2 ** 31)), "perm_budget": 6 if tier == "quick" else 24})
+        if i % 5 == 3:
+            # one large batch (plot / evaluation sized), with and without autograd; sizes around typical chunk sizes
+            # (5 is coprime to the number of kinds; the size index moves on with every round through the kinds)
+            m = i // 5
+            cases[-1]["bign"] = int(BIG_N[(m // 8 + m) % len(BIG_N)])
+            cases[-1]["big_grad"] = (m // 8) % 3 == 1
     return cases
 
 
@@ -87,8 +96,8 @@ def _bclass(batch):
 
 def _cls(c):
     s = c["spec"]
-    return "%s/v%d/ax%d/%s/b%s/d%d" % (s["k"], len(s["in"]), len(c["batch"]), c["dtype"], _bclass(c["batch"]),
-                                       M.depth_of(s))
+    return "%s/v%d/ax%d/%s/b%s/d%d%s" % (s["k"], len(s["in"]), len(c["batch"]), c["dtype"], _bclass(c["batch"]),
+                                         M.depth_of(s), "/big%s" % ("g" if c.get("big_grad") else "") if c.get("bign") else "")
 
 
 # ---------------------------------------------------------------------------------------------
@@ -117,18 +126,20 @@ class _Ctx:
         self.res["viol"].append(viol(kind, msg, **m))
 
 
-def _fwd(ctx, model, data, order):
+def _fwd(ctx, model, data, order, grad=False):
     P = M.mk_points(data, order)
     ctx.count("forward_calls")
     before = P.as_tensor.clone()
-    with torch.no_grad():
+    if grad:
+        P.as_tensor.requires_grad_(True)       # autograd really records the evaluation
+    with (torch.enable_grad() if grad else torch.no_grad()):
         out = model(P)
     if not torch.equal(P.as_tensor, before) and not ctx.res.get("_input_modified_reported"):
         # a model is a function of its input: the caller's points are the same after the call
         ctx.res["_input_modified_reported"] = True
         ctx.violate("input_modified", "forward changed the Points object it was called with (variables stored as %s, max |change| %.3g)"
                     % (order, float((P.as_tensor - before).abs().max())), monitor="input")
-    return out.as_tensor, M.space_pairs(out.space)
+    return out.as_tensor.detach(), M.space_pairs(out.space)
 
 
 def _diff(a, b):
@@ -340,6 +351,59 @@ def _monitor_rows(ctx, model, data, decl, y0, scale, rng, g):
         ctx.decisive += 1
 
 
+def _monitor_big(ctx, model, decl, dims, scale, rng, g):
+    """One evaluation-sized batch: rows picked from it (first, last, around powers of two, random) evaluated as a small
+    batch of their own give the same values, whether autograd records or not."""
+    c = ctx.c
+    n = int(c["bign"])
+    names = list(decl)
+    data = {k: _rand(ctx, g, (n, dims[k]), k) for k in names}
+    grad = bool(c.get("big_grad"))
+    try:
+        yb = _fwd(ctx, model, data, names, grad=grad)[0]
+    except Exception as e:
+        ctx.violate("exception", "forward raised %r for a batch of %d rows (autograd %s)" % (e, n, "on" if grad else "off"),
+                    monitor="big", site=exc_site(e), exc=type(e).__name__)
+        return
+    ctx.count("big_batches")
+    if yb.shape[0] != n:
+        ctx.violate("shape", "output has %d rows for a batch of %d rows" % (yb.shape[0], n), monitor="big")
+        return
+    pick = {0, n - 1, n // 2}
+    for b in (1023, 1024, 4095, 4096, 16383, 16384, 32767, 32768, 65535, 65536):
+        if b < n:
+            pick.add(b)
+    pick.update(int(v) for v in rng.integers(0, n, 12))
+    t0 = max(0, n - 700)
+    od = torch.float32 if ctx.f64 else torch.float64
+    for S, what, g2 in ((torch.as_tensor(sorted(pick)), "picked", not grad), (torch.arange(t0, n), "the last", False)):
+        sub = {k: data[k][S] for k in names}
+        ys = _fwd(ctx, model, sub, names, grad=g2)[0]
+        # rows on which the random net is well conditioned (same weights in the other precision agree to 3 digits);
+        # overflowing or chaotic rows of a large random batch decide nothing
+        try:
+            yo = _fwd(ctx, ctx.other, {k: v.to(od) for k, v in sub.items()}, names)[0].to(torch.float64)
+        except Exception:
+            ctx.count("big_reference_failed")
+            continue
+        d = (yo - ys.to(torch.float64)).abs()
+        rowscale = ys.to(torch.float64).abs().amax(-1).clamp(min=1.0)
+        good = torch.isfinite(d).all(-1) & torch.isfinite(ys).all(-1) & (d.amax(-1) <= 1e-3 * rowscale)
+        good &= rowscale <= 1e3 * scale
+        ctx.count("big_rows_ill_conditioned_skipped", int((~good).sum()))
+        if not bool(good.any()):
+            continue
+        noise0 = ctx.noise
+        ctx.noise = max(noise0, float(d[good].max()) * (1.9e-9 if ctx.f64 else 1.0))
+        ok = _judge(ctx, "big", yb[S][good], ys[good], ctx.tol_blas, max(scale, float(rowscale[good].max())),
+                    "%s %d rows of a batch of %d (autograd %s) evaluated as their own batch (autograd %s)"
+                    % (what, int(good.sum()), n, "on" if grad else "off", "on" if g2 else "off"), "row_dependent", how="big")
+        ctx.noise = noise0
+        ctx.count("big_rows_compared", int(good.sum()))
+        if ok:
+            ctx.decisive += 1
+
+
 def _compose(ctx, model, spec, data, scale, path):
     """Own composition of the model tree; compares the library's composition nodes against it."""
     k = spec["k"]
@@ -491,6 +555,7 @@ def run_case(c):
         ctx.count("degenerate_nonfinite_output_skipped")      # an overflowing random net decides nothing
         return res
     scale = max(1.0, float(y0.abs().max()))
+    ctx.other = other
     ctx.noise, err32 = _rounding_noise(ctx, other, data, decl, y0)
     if not (err32 < 1e-3 * scale and ctx.col_chaos < 1e-3):   # float32 keeps fewer than 3 digits of an output column
         ctx.count("degenerate_ill_conditioned_skipped")
@@ -508,6 +573,8 @@ def run_case(c):
             ctx.violate("exception", "evaluating the parts of the composition raised %r" % (e,), monitor="compose",
                         site=exc_site(e), exc=type(e).__name__)
     _monitor_norm(ctx, model, spec, rng)
+    if c.get("bign"):
+        _monitor_big(ctx, model, decl, dims, scale, rng, g)
 
     # fixed weights: nothing above may have changed the model
     for k, v in model.state_dict().items():
